@@ -563,9 +563,11 @@ C18_OneLoop == RunningAtRest /\ ~overlap => E.cloop = 1 /\ E.creaper = (IF hdr.e
 \* return a result (C14), accepted jobs are never run (C01, C03), barriers never return (C06), nothing is stopped or trimmed (C18), ...
 C01_NoCrash == ~crashed
 C03_NoCrash == ~crashed
+C05_NoCrash == ~crashed      \* (a panic of the library takes every waiter on a handle with it)
 C06_NoCrash == ~crashed
 C09_NoCrash == ~crashed
 C11_NoCrash == ~crashed
+C12_NoCrash == ~crashed      \* (a panic while an entry is decoded or dispatched: the payload never reaches the worker function)
 C13_NoCrash == ~crashed
 C14_NoCrash == ~crashed
 C18_NoCrash == ~crashed
